@@ -139,12 +139,14 @@ class GuardedIterator:
         iterator: t.Iterable[bytes],
         headers_set: tuple[int, Headers],
         chunks: list[int],
+        head: bool = False,
     ) -> None:
         self._iterator = iterator
         self._next = iter(iterator).__next__
         self.closed = False
         self.headers_set = headers_set
         self.chunks = chunks
+        self.head = head
 
     def __iter__(self) -> GuardedIterator:
         return self
@@ -207,7 +209,13 @@ class GuardedIterator:
                         HTTPWarning,
                         stacklevel=2,
                     )
-            elif content_length is not None and content_length != bytes_sent:
+            elif (
+                content_length is not None
+                and content_length != bytes_sent
+                # the response to a HEAD request has no body, its
+                # Content-Length describes what a GET would send
+                and not (self.head and bytes_sent == 0)
+            ):
                 warn(
                     "Content-Length and the number of bytes sent to the"
                     " client do not match.",
@@ -438,5 +446,8 @@ class LintMiddleware:
         app_iter = self.app(environ, t.cast("StartResponse", checking_start_response))
         self.check_iterator(app_iter)
         return GuardedIterator(
-            app_iter, t.cast(tuple[int, Headers], headers_set), chunks
+            app_iter,
+            t.cast(tuple[int, Headers], headers_set),
+            chunks,
+            environ.get("REQUEST_METHOD") == "HEAD",
         )
